@@ -203,7 +203,7 @@ impl Prop for C01 {
     type Case = PlanCase;
     const ID: &'static str = "C01";
     const PART: &'static str = "random-worlds";
-    const RULE: &'static str = "proptest choice sequences -> planner cases over 4 planners x 6 kinds: generated bounded spaces, 0-4 obstacles (balls, boxes, walls with doors, arcs, cones; 30% thicker than the resolution but thinner than the step), 30% starts marginally inside an obstacle (depth < 0.1 L), 30% goal regions blocked/overlapped by an obstacle, step log-uniform over [1e-3,10] x extent, goal bias {0,(0,1),1}, iteration budgets, seeds. Non-trivial = Ok(path) with >= 3 states in a run where >= 1 validity query was rejected, or an invalid-start case that reached solve.";
+    const RULE: &'static str = "proptest choice sequences -> planner cases over 4 planners x 6 kinds: generated bounded spaces, 0-4 obstacles (balls, boxes, walls with doors, arcs, cones; 30% thicker than the resolution but thinner than the step), 30% starts marginally inside an obstacle (depth < 0.1 L), 30% goal regions blocked/overlapped by an obstacle, step log-uniform over [1e-3,10] x extent, goal bias {0,(0,1),1}, iteration budgets, seeds; 25% of the cases are call histories with a second problem whose setup installs a stricter checker (the base world plus one obstacle). Non-trivial = Ok(path) with >= 3 states in a run where >= 1 validity query was rejected, or an invalid-start case that reached solve.";
     fn random_cases(tier: Tier) -> usize {
         tier.pick(6_000, 150_000)
     }
@@ -212,6 +212,10 @@ impl Prop for C01 {
             p_marginal_start: 0.3,
             p_goal_blocked: 0.15,
             p_goal_overlap: 0.15,
+            // a quarter of the cases are call histories (re-setup with another problem and
+            // possibly a stricter checker, PRM problem replacement, repeated solve)
+            histories: ch.prob(0.25),
+            p_world2: 0.6,
             ..Default::default()
         };
         gen_plan_case(ch, &prof)
